@@ -207,6 +207,15 @@ func (p *p03) mkInterHub() p03Tx {
 			s, _ := validatorKey(v).Priv.Sign(interHubHash(ib, pb.TransactionStatus_SUCCESS))
 			sigs = append(sigs, s)
 			names = append(names, fmt.Sprintf("v%d-wrong-status", v))
+		case 3: // a validator's signature together with its other encoding (r, N-s, v^1): still one validator
+			v := r.Intn(3)
+			s, _ := validatorKey(v).Priv.Sign(digest)
+			sigs = append(sigs, s)
+			if t := sigTwin(s); t != nil {
+				sigs = append(sigs, t)
+			}
+			distinct[v] = true
+			names = append(names, fmt.Sprintf("v%d+twin", v))
 		default:
 			v := r.Intn(3) // few validators: duplicates are likely
 			s, _ := validatorKey(v).Priv.Sign(digest)
@@ -284,6 +293,23 @@ func interHubRequestTx(w *harness.World, pier *harness.Key, from, to string, idx
 	}
 	proof, _ := (&pb.BxhProof{TxStatus: pb.TransactionStatus_BEGIN, MultiSign: sigs}).Marshal()
 	return harness.IBTPTx(pier, w.Nonce(pier.Addr), w.Stamp(), ib, proof, nil)
+}
+
+var secp256k1N, _ = new(big.Int).SetString("FFFFFFFFFFFFFFFFFFFFFFFFFFFFFFFEBAAEDCE6AF48A03BBFD25E8CD0364141", 16)
+
+// sigTwin returns the other valid encoding (r, N-s, v^1) of a 65 byte [r||s||v] secp256k1 signature: a different
+// byte string that recovers to the same signer, computable by anyone.
+func sigTwin(sig []byte) []byte {
+	if len(sig) != 65 {
+		return nil
+	}
+	sv := new(big.Int).Sub(secp256k1N, new(big.Int).SetBytes(sig[32:64]))
+	out := make([]byte, 65)
+	copy(out[:32], sig[:32])
+	sb := sv.Bytes()
+	copy(out[64-len(sb):64], sb)
+	out[64] = sig[64] ^ 1
+	return out
 }
 
 // forgedHubPair: a service of the registered remote BitXHub as source, a contract hosted on this relay chain as
